@@ -1,7 +1,7 @@
 """C16 - collect()/first() give the right results at the right time and abort the rest."""
 from hypothesis import strategies as st
 
-from vlib.runner import Check, Outcome
+from vlib.runner import Check, Outcome, InvalidCase
 from vlib.interp import execute, num
 from vlib.probe import Probe
 from vlib.scopelog import Structure, by_activity
@@ -33,6 +33,17 @@ def cases(draw, tier):
         else:
             steps.append({'op': 'return', 'v': val(i)})
         acts.append({'name': 'x%d' % i, 'steps': steps})
+    extra = []
+    if kind == 'collect' and n and draw(st.integers(0, 3)) == 0:
+        # some activities wait for a task of the surrounding scope which a third party cancels: they fail with
+        # TaskCancelled - a failure like any other for collect()
+        extra = [{'name': 'vt', 'steps': [{'op': 'sleep', 'd': 40}]},
+                 {'name': 'kl', 'steps': [{'op': 'sleep', 'd': draw(st.sampled_from([0.5, 1, 2, 3]))},
+                                          {'op': 'cancel', 'ref': 'vt', 'token': [7]}]}]
+        picks = draw(st.lists(st.integers(0, n - 1), min_size=1, max_size=2))
+        for i in picks:
+            acts[i]['steps'] = [x for x in acts[i]['steps'] if x['op'] == 'sleep'] + [
+                {'op': 'await_task', 'ref': 'vt', 'nocatch': True}]
     if kind == 'collect':
         op = {'op': 'collect', 'acts': acts}
     else:
@@ -51,21 +62,31 @@ def cases(draw, tier):
     caller = {'name': 'cl', 'steps': ([{'op': 'sleep', 'd': draw(st.sampled_from([0, 0.5, 1]))}] if draw(st.booleans()) else [])
               + [op, {'op': 'sleep', 'd': 1}, {'op': 'sleep', 'd': 6}]}
     other = {'name': 'ot', 'steps': [{'op': 'sleep', 'd': 1}, {'op': 'sleep', 'd': 1}]}
-    blk = {'op': 'scope', 'name': 'S', 'children': [caller, other], 'body': [], 'catch': True}
+    blk = {'op': 'scope', 'name': 'S', 'children': extra + [caller, other], 'body': [], 'catch': True}
     prog = {'start': draw(st.sampled_from([0, 0, -1, 2.5])), 'objs': {}, 'roots': [{'name': 'r0', 'steps': [blk]}]}
     faults = draw(st.lists(st.fixed_dictionaries({'k': st.integers(0, 60), 'target': st.just('cl'), 'token': st.just([1])}),
                            max_size=3))
     return {'prog': prog, 'faults': faults}
 
 
-def comp_time(start, a):
-    """(completion time, round) of a one-wait activity started at `start`."""
+def comp_time(start, a, tc=None):
+    """(completion time, round) of a one-wait activity started at `start` (tc: when the awaited task is cancelled)."""
     t, rnd = start, 0
     for s in a['steps']:
         if s['op'] == 'sleep':
             t = t + num(s['d'])
             rnd = 1
+        elif s['op'] == 'await_task':
+            if tc is None:
+                raise InvalidCase('nobody cancels the awaited task')
+            t = max(t, tc)
+            rnd = 1
     return t, rnd
+
+
+def ident(a):
+    last = a['steps'][-1]
+    return last['eid'] if last['op'] == 'raise' else 'vt'
 
 
 def judge(out, case, it, oc, exc, ctx):
@@ -88,8 +109,16 @@ def judge(out, case, it, oc, exc, ctx):
         return
     t0 = begin[0][4]
     cancelled = any(f[4] not in (None, 'SUCCESS', 'FAILED', 'CANCELLED') for f in it.fault_log)
-    ct = [comp_time(t0, a) for a in acts]
-    failing = [i for i, a in enumerate(acts) if any(s['op'] == 'raise' for s in a['steps'])]
+    tc = None
+    if 'kl' in S.acts:
+        kl = S.acts['kl']['steps']
+        if len(kl) != 2 or kl[0]['op'] != 'sleep' or kl[1]['op'] != 'cancel':
+            raise InvalidCase('killer')
+        tc = prog['start'] + num(kl[0]['d'])
+    ct = [comp_time(t0, a, tc) for a in acts]
+    failing = [i for i, a in enumerate(acts) if any(s['op'] in ('raise', 'await_task') for s in a['steps'])]
+    if any(s['op'] == 'await_task' for a in acts for s in a['steps']):
+        out.features.add('activity_fails_with_taskcancelled')
     res = [e for e in es if e[3] in ('got', 'got_exc', 'ok', 'valueerror')]
     end_ev = None          # the event after which nothing of the activities may run
     if node['op'] == 'collect':
@@ -114,14 +143,18 @@ def judge(out, case, it, oc, exc, ctx):
                     out.features.add('collect_ok')
             else:
                 tf = min(ct[i][0] for i in failing)
-                firsts = {acts[i]['steps'][-1]['eid'] for i in failing if ct[i][0] == tf}
+                firsts = {ident(acts[i]) for i in failing if ct[i][0] == tf}
                 if d[3] != 'got_exc':
                     out.fail('collect', 'failure_swallowed', 'collect returned %r although %r fail;%s' % (d[5], failing, ctx))
                 else:
                     desc = d[5]
-                    kids = [desc] if desc[0] == 'prog' else list(desc[1]) if desc[0] == 'conc' else []
-                    eids = {k[1] for k in kids if k[0] == 'prog'}
-                    if not eids or not eids <= firsts:
+                    kids = [desc] if desc[0] in ('prog', 'cancelled') else list(desc[1]) if desc[0] == 'conc' else []
+                    eids = {k[1] for k in kids if k[0] in ('prog', 'cancelled')}
+                    if desc[0] == 'closed' and firsts == {'vt'}:
+                        # a scope does not re-raise TaskCancelled: the caller gets the outcome of the first
+                        # unsuccessful activity in argument order, which may be one aborted *because of* the failure
+                        out.features.add('taskcancelled_reported_as_closed_sibling')
+                    elif not eids or not eids <= firsts:
                         out.fail('collect', 'wrong_failure', 'collect raised %r; first failures (t=%r) are eids %r;%s' % (
                             desc, tf, sorted(firsts), ctx))
                     if d[4] != tf:
